@@ -18,6 +18,13 @@
                                (TransCheck.check_exact) that is transitive (TransProofs.R_trans)
      overlap_complete_partial  a `false` of types_overlap proves disjointness on the first-order
                                cycle-free fragment (ints, bins, refs, resources, tuples, unions)
+     intersect_keeps_partial   a value of both a and b is a value of intersect_types a b (in the registry
+                               after the call, which extends the one before), a b first-order cycle-free
+     complement_keeps_partial  a value of o that is not a value of nr is a value of compute_complement o nr,
+                               o nr first-order cycle-free, registry well formed (`wfregb`), F7 repair
+     filter_keeps_partial      filter_variants_by_field WITH the overlap test (proposed repair) keeps every tuple
+                               value of the parent whose tested field is a value of the tested type (first-order
+                               cycle-free parent with non-union variants); as it is in /repo: refuted (filter_refuted)
      register_type/tuple_monotone, inhab_monotone   registry monotonicity
    What is REFUTED on the real code (witnesses, vm_compute; replayed by ./check):
      F7, F12, F25p, F29 (as found; repaired since, repaired answers pinned), F23 (a, c),
@@ -36,23 +43,15 @@
      overlap_complete : forall P a b, closedb P a = true -> closedb P b = true ->
         (exists n v, inhab P n [] v a /\ inhab P n [] v b) -> types_overlap P a b = true
         (false as stated: F25 for callable/process; recursive first-order fragment unproved)
-     intersect_keeps : inhab P n [] v a -> inhab P n [] v b ->
-        inhab P' n [] v (intersect_types P a b)          (P' = registry after the call)
-     complement_keeps : inhab P n [] v o -> ~ inhab P n [] v nr ->
-        inhab P' n [] v (compute_complement P o nr)
-        (both false on recursive unions: F24; not proved on the cycle-free fragment either.
-         Sizing of the `_partial` proofs for first-order cycle-free operands: (1) every narrowing
-         function only extends the registry (`extends`, by mutual induction on fuel through the
-         inline variant / field loops), so `inhab_monotone` carries memberships forward; (2)
-         union_type_ids keeps every value of every piece (flatten, dedup, singleton unwrapping; needs
-         env_indep on the result); (3) intersect_pair: same id / same leaf / tuple arm field-wise by
-         the induction hypothesis, a field intersection equal to `never` contradicts membership, the
-         default arm returns `never` only when types_overlap is false, which overlap_complete_partial
-         turns into disjointness; (4) subtract_one: the `is_compatible` shortcut is sound by
-         compat_sound_partial, the tuple arm keeps [A0..Ai\bi..An] for a field where the value is
-         outside bi.  About 600-800 lines, mostly registry threading; not done —
-         validated by the oracle only) *)
-From Quiver Require Import Base Types Rel Sem SemProofs RelProofs OverlapProofs TypesProofs Witness TransCheck TransThm.
+     intersect_keeps / complement_keeps (general) : false on recursive unions (F24, witness
+        C09_complement_refuted_F24) and where callable types meet (F25, witness
+        C09_intersect_refuted_F25); PROVED on the first-order cycle-free fragment:
+        intersect_keeps_partial, complement_keeps_partial below (NarrowProofs.v: every narrowing
+        function only extends the registry; union_type_ids keeps every value of every piece; a
+        `never` answer of intersect_pair's default arm is justified by overlap_complete_partial,
+        the is_compatible shortcut of subtract_one by compat_sound_partial; membership in a
+        first-order type is decidable, which locates the field where the value leaves b). *)
+From Quiver Require Import Base Types Rel Sem SemProofs RelProofs OverlapProofs TypesProofs Narrow NarrowProofs Witness TransCheck TransThm.
 From Coq Require Import Arith.
 Close Scope Z_scope.
 Open Scope nat_scope.
@@ -115,6 +114,68 @@ Example C09_overlap_nonvacuous :
   fo_domain reg_F7 5 = true /\ fo_domain reg_F7 10 = true /\
   types_overlap_with current_cfg 1000 reg_F7 5 10 = Some true /\
   types_overlap_with current_cfg 1000 reg_F7 0 1 = Some false.
+Proof. vm_compute. repeat split; reflexivity. Qed.
+
+Theorem C09_intersect_keeps_partial : forall cfg rel_fuel fuel P a b P' r,
+  intersect_types cfg rel_fuel fuel P a b = Some (P', r) ->
+  fo_domain P a = true -> fo_domain P b = true ->
+  extends P P' /\ forall n v, inhab P n [] v a -> inhab P n [] v b -> inhab P' n [] v r.
+Proof. exact intersect_keeps_fo. Qed.
+Print Assumptions C09_intersect_keeps_partial.
+
+Theorem C09_complement_keeps_partial : forall cfg rel_fuel fuel P o nr P' r,
+  cfg_retract cfg = true -> wfregb P = true ->
+  compute_complement cfg rel_fuel fuel P o nr = Some (P', r) ->
+  fo_domain P o = true -> fo_domain P nr = true ->
+  extends P P' /\ forall n v, inhab P n [] v o -> ~ inhab P n [] v nr -> inhab P' n [] v r.
+Proof. exact complement_keeps_fo. Qed.
+Print Assumptions C09_complement_keeps_partial.
+
+(* non-vacuity on the F7 graph: Wrap[Wrap[A|B]] /\ (Wrap[Wrap[A]] | Wrap[Wrap[A]|O]) keeps Wrap[Wrap[A]];
+   (A|B) \ A keeps B; the registry is well formed and all operands are in the fragment *)
+Example C09_narrowing_nonvacuous :
+  wfregb reg_F7 = true /\ fo_domain reg_F7 5 = true /\ fo_domain reg_F7 10 = true /\
+  fo_domain reg_F7 3 = true /\ fo_domain reg_F7 0 = true /\
+  match intersect_types current_cfg 1000 1000 reg_F7 5 10 with
+  | Some (P', r) => memb reg_F7 (tup 3 [tup 3 [tup 0 []]]) 5 && memb reg_F7 (tup 3 [tup 3 [tup 0 []]]) 10
+                    && memb P' (tup 3 [tup 3 [tup 0 []]]) r
+  | None => false
+  end = true /\
+  match compute_complement current_cfg 1000 1000 reg_F7 3 0 with
+  | Some (P', r) => memb reg_F7 (tup 1 []) 3 && negb (memb reg_F7 (tup 1 []) 0) && memb P' (tup 1 []) r
+  | None => false
+  end = true.
+Proof. vm_compute. repeat split; reflexivity. Qed.
+
+Theorem C09_complement_refuted_F24 : complement_violation current_cfg reg_F24 4 0 v_F24 = true.
+Proof. exact F24_current. Qed.
+Print Assumptions C09_complement_refuted_F24.
+
+Theorem C09_intersect_refuted_F25 : intersect_violation current_cfg reg_F25fn 3 4 (VFun 6) = true.
+Proof. exact F25_intersect_current. Qed.
+Print Assumptions C09_intersect_refuted_F25.
+
+(* filter_variants_by_field (narrowing a parent after a runtime test of one field succeeded): as it is in
+   /repo it drops values (refuted); with the overlap test (hooks/fix_filter_variants.patch) it keeps every
+   tuple value of the parent whose tested field is a value of the tested type *)
+Theorem C09_filter_refuted : filter_violation current_cfg current_filter_by_overlap reg_filter 5 0 0 v_filter (VInt 0%Z) = true.
+Proof. exact filter_current. Qed.
+Print Assumptions C09_filter_refuted.
+
+Theorem C09_filter_keeps_partial : forall cfg rel_fuel P parent idx must P' r,
+  filter_variants_by_field cfg rel_fuel true P parent idx must = Some (P', r) ->
+  FO P parent -> FO P must ->
+  (forall x, In x (get_type_variants P parent) -> non_union P x) ->
+  extends P P' /\
+  forall n name fs f, inhab P (S n) [] (VTup name fs) parent -> nth_error fs idx = Some f ->
+                      inhab P n [] (snd f) must -> inhab P' (S n) [] (VTup name fs) r.
+Proof. exact filter_keeps_fo. Qed.
+Print Assumptions C09_filter_keeps_partial.
+
+Example C09_filter_nonvacuous :
+  fo_domain reg_filter 5 = true /\ fo_domain reg_filter 0 = true /\
+  match filter_variants_by_field current_cfg 1000 true reg_filter 5 0 0 with
+  | Some (P', r) => memb reg_filter v_filter 5 && memb P' v_filter r | None => false end = true.
 Proof. vm_compute. repeat split; reflexivity. Qed.
 
 Theorem C09_register_type_monotone : forall P t P' id,
